@@ -2,6 +2,7 @@ pub mod c01;
 pub mod c09;
 pub mod c10;
 pub mod c11;
+pub mod c13;
 pub mod common;
 
 use crate::harness::{Stats, Tier, Violation};
@@ -177,4 +178,5 @@ dispatch! {
     "c09" => c09, "C09";
     "c10" => c10, "C10";
     "c11" => c11, "C11";
+    "c13" => c13, "C13";
 }
